@@ -1772,7 +1772,8 @@ func resolveIndex(v, index reflect.Value, indexAsStr string) (reflect.Value, err
 			return reflect.Value{}, fmt.Errorf("can't use %s (unhashable type %s) as key for map of type %s", indexAsStr, indexVal.Type(), v.Type())
 		}
 		index = indexVal.Convert(v.Type().Key()) // noop in most cases, but not expensive
-		if v.Type().Key().Kind() == reflect.Interface {
+		switch v.Type().Key().Kind() {
+		case reflect.Interface, reflect.Struct, reflect.Array:
 			// a key that is comparable by its static type can still hold an unhashable
 			// dynamic value (struct{ ID interface{} }{ID: []int{1}}): MapIndex panics then
 			return mapIndexInterfaceKey(v, index)
